@@ -135,6 +135,35 @@ def run_config(cfg, e):
                         obl.append((got * cnt * float(au[t]) == tot * float(au[t]) * f * float(U[t, s_, k]),
                                     'templates.waveforms[%d,:,%d] is not the rescaled unwhitened template on channel %d' % (t, j, k)))
             e.prove_all(obl)
+        # ---- cluster waveforms: nearest same-probe channels of the cluster's peak channel, peak first;
+        #      for an uncurated dataset they are the template waveforms ----
+        cw, cwc = A('clusters.waveforms'), A('clusters.waveformsChannels')
+        cchm = [int(v) for v in snp.asarray(m.clusters_channels).a.tolist()]
+        ncw = min(2, nc)
+        obl = [(cw.shape == (nclu, nsw, ncw) and cwc.shape == (nclu, ncw), 'clusters.waveforms shape %s for %d clusters' % (cw.shape, nclu))]
+        e.prove_all(obl)
+        obl = []
+        for cl in range(nclu):
+            chs = [int(v) for v in cwc.a[cl].tolist()]
+            pk = cchm[cl]
+            on_probe = [k for k in range(nc) if probes[k] == probes[pk]]
+            dist = np.abs(pos - pos[pk]).sum(axis=1)
+            if len(on_probe) >= ncw:
+                obl.append((chs[0] == pk, 'cluster %d: peak channel is not listed first' % cl))
+                obl.append((len(set(chs)) == len(chs) and all(k in on_probe for k in chs),
+                            'cluster %d: listed channels %s are not distinct channels of the peak channel\'s probe' % (cl, chs)))
+                far = max(dist[k] for k in chs)
+                obl.append((all(dist[k] >= far for k in on_probe if k not in chs),
+                            'cluster %d: listed channels %s are not the nearest ones' % (cl, chs)))
+            if conc_tpl and not curated and cl < T:
+                cnt, tot = means[cl]
+                for s_ in range(nsw):
+                    for j, k in enumerate(chs):
+                        if cnt == 0 or au[cl] == 0:
+                            continue
+                        obl.append((cw.a[cl, s_, j] * cnt * float(au[cl]) == tot * float(au[cl]) * f * float(U[cl, s_, k]),
+                                    'clusters.waveforms[%d,:,%d] is not the rescaled unwhitened waveform on channel %d' % (cl, j, k)))
+        e.prove_all(obl)
         # ---- cluster depths / durations / spike depths ----
         cch = A('clusters.channels')
         cdep, cdur = A('clusters.depths'), A('clusters.peakToTrough')
